@@ -171,12 +171,16 @@ Definition expect (mo : mon) (o : op) (r : outcome Z) : option (list (Z * Z * Z 
       Some (close_cbs (mo_subs mo), mkMon (mo_now mo) true (map close_msub (mo_subs mo)) (mo_pubs mo) (mo_clones mo) (mo_keys mo))
   | Stall | Drain => keep        (* a full to-driver ring changes nothing the property talks about: in particular a subscription
                                     dropped while the ring is full still has every image reported unavailable exactly once *)
+  | ChanErr now =>
+      (* a channel endpoint error on the subscriptions' channel: every still registered subscription loses all its images (each
+         reported unavailable, closed) and is forgotten - later announcements for it are ignored; the client stays open *)
+      Some (close_cbs (mo_subs mo), mkMon (mo_now mo) (mo_closed mo) (map close_msub (mo_subs mo)) (mo_pubs mo) (mo_clones mo) (mo_keys mo))
   end.
 
 Definition op_now (mo : mon) (o : op) : Z :=
   match o with
   | Subscribe now | Publish now _ _ | Avail now _ _ _ | Unavail now _ _ | Tick now
-  | DropSub now _ | DropPub now _ | CloseClient now => now
+  | DropSub now _ | DropPub now _ | CloseClient now | ChanErr now => now
   | Hold _ _ | Unhold _ | Stall | Drain => mo_now mo
   end.
 
